@@ -39,6 +39,7 @@ type JobSpec struct {
 	Stubs     []string       `json:"stubs"`
 	NoMerge   bool           `json:"no_merge"`
 	Canon8    bool           `json:"canon8"`
+	CanonAll  bool           `json:"canon_all"`
 	NoModels  []string       `json:"no_models"`
 	ExpectSat []string       `json:"expect_sat"` // labels that must be violated (vacuity witnesses)
 }
@@ -120,6 +121,10 @@ var interpretable = map[string]bool{
 	"crypto/subtle": true, "internal/itoa": true,
 }
 
+var interpretFuncs = map[string]bool{
+	"(*fmt.wrapError).Unwrap": true, "(*fmt.wrapError).Error": true, "(*fmt.wrapErrors).Unwrap": true, "(*fmt.wrapErrors).Error": true,
+}
+
 func (c *Config) mayInterpret(fn *ssa.Function) bool {
 	p := fn.Pkg
 	if p == nil {
@@ -131,6 +136,9 @@ func (c *Config) mayInterpret(fn *ssa.Function) bool {
 		return true // synthetic wrappers, bound methods
 	}
 	if c.isTarget(p) {
+		return true
+	}
+	if interpretFuncs[fnName(fn)] {
 		return true
 	}
 	return interpretable[p.Pkg.Path()]
@@ -390,7 +398,8 @@ func runPath(it *Interp, job *JobSpec, item workItem, sched *scheduler, res *Job
 	it.ctx.ResetPath()
 	it.solver.Reset()
 	it.cfg.noMerge = job.NoMerge
-	it.cfg.canon8 = job.Canon8
+	it.cfg.canon8 = job.Canon8 || job.CanonAll
+	it.ctx.canonAll = job.CanonAll
 	it.cfg.noModel = map[string]bool{}
 	for _, m := range job.NoModels {
 		it.cfg.noModel[m] = true
@@ -425,6 +434,7 @@ func runPath(it *Interp, job *JobSpec, item workItem, sched *scheduler, res *Job
 	}
 	it.evalMemo = map[*Term]uint64{}
 	it.notes = map[string]Value{}
+	it.opaqueLens = map[int32]bool{}
 	it.axiomSeen = map[*Term]bool{}
 	it.forkSites = map[string]int{}
 	it.newModels = nil
